@@ -876,3 +876,32 @@ def subscript_operand_positions(F, rep, rule, fn_rx, floor):
                           "%s, arm [%s]: the index operands handed to the kernel compiler are %s, expected %s - the assignment / read addresses rows and columns taken from the wrong subscript" % (
                               it["name"], ", ".join(kinds), show(bad[0]) if bad else "", show(want)), "%s (mech_interpreter.lib)" % it["name"], sample={"fn": it["name"], "arm": kinds, "operands": [show(u) for u in sorted(uniq)]})
     rep.floor(rule, "subscript dispatcher arms with index operands", n, floor)
+
+
+# ---------------------------------------------------------------- C05-R9 an out-of-range (zero) index makes the assignment fail
+def assign_index_zero_rejected(F, rep, rule):
+    """1-based indices are turned into offsets by a CHECKED `ix - 1` in every assignment kernel: index 0 overflows and the statement fails; a saturating / wrapping / clamped form maps
+    index 0 onto element 1 and the statement silently overwrites it"""
+    from lib import fxn as X
+    from lib.kernel import Kernel, Unrecognised, show
+    rep.rule(rule, "a failing indexed assignment changes nothing: every assignment kernel converts its 1-based index with the overflow-checked `ix - 1` (index 0 is rejected), never with "
+                   "saturating_sub / wrapping_sub / max / clamp forms that turn index 0 into a valid offset")
+    S = X.load_fxn_structs(F, ["mech_interpreter.lib", "mech_math.lib"])
+    n = 0
+    SOFT = re.compile(r"saturating_sub|wrapping_sub|checked_sub|\bmax\(|\bclamp\(|unwrap_or\(")
+    for (crate, name), fs in sorted(S.items()):
+        if fs.solve is None or "sink" not in dict(fs.fields):
+            continue
+        try:
+            k = Kernel(fs.solve, fs.fields)
+        except Unrecognised:
+            continue
+        ws = [e for e in k.effects if e.kind == "write"]
+        if not ws:
+            continue
+        n += 1
+        soft = sorted({m.group(0) for e in ws for m in [SOFT.search(show(e.target))] if m})
+        rep.check(not soft, rule, name if not soft else "%s:index-through-%s" % (name, soft[0].strip("(")),
+                  "%s::solve addresses its sink through `%s`: index 0 no longer fails (the overflow of `ix - 1` was the only rejection) - `x[0] = v` succeeds and overwrites element 1 instead of "
+                  "leaving every binding unchanged" % (name, [show(e.target) for e in ws if SOFT.search(show(e.target))][:1]), "%s (%s)" % (name, crate), sample={"struct": name})
+    rep.floor(rule, "assignment kernels with recognised writes", n, 60)
